@@ -92,6 +92,13 @@ func runReach(res *core.Result, seed int64, root string, verbose bool, bracket f
 	os.WriteFile(filepath.Join(root, "d1", "canary.txt"), []byte(can.mk("file")+"\n"), 0o644)
 	os.WriteFile(filepath.Join(root, "d1", "d2", "canary.txt"), []byte(can.mk("file")+"\n"), 0o644)
 
+	// not asserted, outside any syscall bracket: with EnableDNS the same expression is allowed to
+	// resolve; counted to show that the override (and not the resolver) produced the "" above
+	if s := renderInstall(probeChart(probe{expr: `getHostByName "localhost"`}).Build(), nil, flags{EnableDNS: true}, nil); !s.Err {
+		if v, ok := dataV(s.Manifest); ok && v != "" {
+			res.Stat("getHostByName_nonempty_with_EnableDNS", 1)
+		}
+	}
 	// positive control of the probe scaffold: a harmless expression renders and is read back
 	ctl := probe{name: "control", expr: `include "probe.ok" . | upper`, want: "OK"}
 	for _, p := range append([]probe{ctl}, probes(absCanary, root)...) {
